@@ -388,9 +388,60 @@ def _lean_bool(b):
     return 'true' if b else 'false'
 
 
+def extract_thin_structure(repo: Path):
+    """(Round 4, C15) the control structure around the eight passes: the statements of `thin.py: thin` (normalised by
+    `ast.unparse`; docstring and imports dropped) — bounding-box crop, zero frame of width 1, native call, paste back —
+    and the loop skeleton of `py_thin` in `_thin.cpp`: the `while` condition, the reset of `any_change`, the `for` over the
+    elements with `fast_hitmiss(array, elems[i], buffer)` and the element count of the clearing loop."""
+    tree = ast.parse((repo / 'mahotas' / 'thin.py').read_text())
+    fn = next((n for n in tree.body if isinstance(n, ast.FunctionDef) and n.name == 'thin'), None)
+    if fn is None:
+        raise TranslationError('thin.py: thin not found')
+    body = []
+    for st in fn.body:
+        if isinstance(st, ast.Expr) and isinstance(st.value, ast.Constant) and isinstance(st.value.value, str):
+            continue
+        if isinstance(st, (ast.Import, ast.ImportFrom)):
+            continue
+        body.append(ast.unparse(st).replace('"', "'"))
+    params = [a.arg for a in fn.args.args] + ['=' + ast.unparse(d) for d in fn.args.defaults]
+    src = (repo / 'mahotas' / '_thin.cpp').read_text()
+    src = re.sub(r'//[^\n]*', '', src)
+    m = re.search(r'PyObject\*\s*py_thin\b(.*?)\n\}\n', src, flags=re.S)
+    if not m:
+        raise TranslationError('_thin.cpp: py_thin not found')
+    f = m.group(1)
+    w = re.search(r'while\s*\((.*?)\)\s*\{', f, flags=re.S)
+    if not w:
+        raise TranslationError('_thin.cpp: the while loop of py_thin not found')
+    cond = re.sub(r'\s+', ' ', w.group(1)).strip()
+    rest = f[w.end():]
+    skel = []
+    for pat, name in [(r'any_change\s*=\s*false\s*;', 'any_change = false'),
+                      (r'for\s*\(\s*int\s+i\s*=\s*0\s*;\s*i\s*!=\s*Nr_Elements\s*;\s*\+\+i\s*\)', 'for i in [0, Nr_Elements)'),
+                      (r'fast_hitmiss\(array,\s*elems\[i\],\s*buffer\)\s*;', 'fast_hitmiss(array, elems[i], buffer)'),
+                      (r'for\s*\(\s*int\s+j\s*=\s*0\s*;\s*j\s*!=\s*N\s*;\s*\+\+j\s*\)', 'for j in [0, N)'),
+                      (r'if\s*\(\*pb\s*&&\s*\*pa\)', 'if (*pb && *pa)')]:
+        k = re.search(pat, rest)
+        if not k:
+            raise TranslationError('_thin.cpp: loop skeleton of py_thin no longer matches: ' + name)
+        skel.append(name)
+        rest = rest[k.end():]
+    pre = f[:w.start()]
+    init = []
+    for pat, name in [(r'const\s+npy_int\s+N\s*=\s*PyArray_SIZE\(array\)\s*;', 'N = PyArray_SIZE(array)'),
+                      (r'bool\s+any_change\s*=\s*true\s*;', 'any_change = true'),
+                      (r'int\s+n\s*=\s*0\s*;', 'n = 0')]:
+        if not re.search(pat, pre):
+            raise TranslationError('_thin.cpp: initialisation of the loop of py_thin no longer matches: ' + name)
+        init.append(name)
+    return dict(params=params, body=body, cond=cond, skel=skel, init=init)
+
+
 def c15_block(repo: Path):
     th = extract_thin(repo)
     eu = extract_euler(repo)
+    ts = extract_thin_structure(repo)
     s = ['/-! ### C15: thinning templates (`_thin.cpp`) and Euler bit-quad tables (`euler.py`) -/', '',
          '/-- `boolvals` of `_thin.cpp` -/',
          'def thinBoolvals : List Bool := [' + ', '.join(_lean_bool(b) for b in th['boolvals']) + ']']
@@ -413,7 +464,15 @@ def c15_block(repo: Path):
           f'def eulerDen : Nat := {eu["den"]}',
           '/-- `_powers` (row major): weight of quad pixel (i, j) in the table index -/',
           'def eulerPowers : List (List Nat) := [' + ', '.join(lean_list(r) for r in eu['powers']) + ']', '']
-    return s, dict(thin_elems=len(th['elems']), euler_tables=2)
+    qs = lambda x: '"' + x.replace('\\', '\\\\').replace('"', '\\"') + '"'
+    s += ['/-- (round 4) `thin.py: thin`: parameters with defaults, and the statements of the body (`ast.unparse`) -/',
+          'def thinPyParams : List String := [' + ', '.join(qs(x) for x in ts['params']) + ']',
+          'def thinPyBody : List String := [' + ', '.join(qs(x) for x in ts['body']) + ']',
+          '/-- (round 4) `_thin.cpp: py_thin`: initialisation before the loop, the `while` condition, the skeleton of its body in order -/',
+          'def thinLoopInit : List String := [' + ', '.join(qs(x) for x in ts['init']) + ']',
+          'def thinLoopCond : String := ' + qs(ts['cond']),
+          'def thinLoopSkeleton : List String := [' + ', '.join(qs(x) for x in ts['skel']) + ']', '']
+    return s, dict(thin_elems=len(th['elems']), euler_tables=2, thin_statements=len(ts['body']))
 
 # ---------------------------------------------------------------------------------------------
 # C17: Daubechies coefficient tables of _convolve.cpp
@@ -562,6 +621,66 @@ def extract_out_sites(repo: Path):
     return sites
 
 
+def extract_out_events(repo: Path):
+    """(Round 4, C09) for every public function with an out/output parameter: the events that matter for the buffer
+    flow, IN SOURCE ORDER — `get_output(array,out,dtype[,output])`, aliasing guards
+    `if np.may_share_memory(x, y): n = n.copy()` (as `unalias:n|x~y`), whole-buffer stores (`store:x[...]=e`, `store:x[:]=e`,
+    `fill:x(v)`), calls of same-module functions that take `out` (`call:<source text>`), native kernel calls
+    (`native:_mod.fn(args)`) and `return:<name>`. A `may_share_memory` test guarding anything but a copy of one of its
+    two operands is a `TranslationError`."""
+    sites = []
+    for m in OUT_MODULES:
+        tree = ast.parse((repo / 'mahotas' / (m + '.py')).read_text())
+        takes_out = {g.name for g in tree.body if isinstance(g, ast.FunctionDef)
+                     and ({'out', 'output'} & {a.arg for a in g.args.args})}
+        for fn in tree.body:
+            if not isinstance(fn, ast.FunctionDef) or fn.name.startswith('_'):
+                continue
+            params = [a.arg for a in fn.args.args]
+            if 'out' not in params and 'output' not in params:
+                continue
+            ev = []
+            for node in ast.walk(fn):
+                pos = (getattr(node, 'lineno', 0), getattr(node, 'col_offset', 0))
+                if isinstance(node, ast.If) and isinstance(node.test, ast.Call) and _src(node.test.func) == 'np.may_share_memory':
+                    if len(node.test.args) != 2 or node.orelse:
+                        raise TranslationError(f'{m}.{fn.name}: may_share_memory test not understood')
+                    x, y = _src(node.test.args[0]), _src(node.test.args[1])
+                    for st in node.body:
+                        ok = (isinstance(st, ast.Assign) and len(st.targets) == 1 and isinstance(st.targets[0], ast.Name)
+                              and _src(st.value) == st.targets[0].id + '.copy()' and st.targets[0].id in (x, y))
+                        if not ok:
+                            raise TranslationError(f'{m}.{fn.name}: aliasing test guards something else than a copy of an operand')
+                        ev.append((pos, f'unalias:{st.targets[0].id}|{x}~{y}'))
+                elif isinstance(node, ast.Assign) and len(node.targets) == 1 and isinstance(node.targets[0], ast.Subscript) \
+                        and isinstance(node.targets[0].value, ast.Name):
+                    sl = node.targets[0].slice
+                    if isinstance(sl, ast.Constant) and sl.value is Ellipsis:
+                        ev.append((pos, f'store:{node.targets[0].value.id}[...]={_src(node.value)}'))
+                    elif isinstance(sl, ast.Slice) and sl.lower is None and sl.upper is None and sl.step is None:
+                        ev.append((pos, f'store:{node.targets[0].value.id}[:]={_src(node.value)}'))
+                elif isinstance(node, ast.Return) and isinstance(node.value, ast.Name):
+                    ev.append(((node.lineno, node.col_offset + 10000), f'return:{node.value.id}'))
+                elif isinstance(node, ast.Call):
+                    f = node.func
+                    if isinstance(f, ast.Name) and f.id == '_get_output' or isinstance(f, ast.Attribute) and f.attr == '_get_output':
+                        dt = node.args[3] if len(node.args) > 3 else next((k.value for k in node.keywords if k.arg == 'dtype'), None)
+                        alias = any(k.arg == 'output' for k in node.keywords)
+                        ev.append((pos, f"get_output({_src(node.args[0])},{_src(node.args[1])},{_src(dt) if dt is not None else 'None'}{',output' if alias else ''})"))
+                    elif isinstance(f, ast.Attribute) and isinstance(f.value, ast.Name) and f.value.id.startswith('_') \
+                            and f.value.id[1:] in ('morph', 'convolve', 'labeled', 'interpolate'):
+                        ev.append((pos, f"native:{f.value.id}.{f.attr}({','.join(_src(a) for a in node.args)})"))
+                    elif isinstance(f, ast.Attribute) and f.attr == 'fill' and isinstance(f.value, ast.Name):
+                        ev.append((pos, f"fill:{f.value.id}({','.join(_src(a) for a in node.args)})"))
+                    elif isinstance(f, ast.Name) and f.id in takes_out and f.id != fn.name:
+                        ev.append((pos, 'call:' + _src(node).replace(' ', '')))
+                    elif isinstance(f, ast.Attribute) and _src(f) == 'np.maximum' and any(k.arg == 'out' for k in node.keywords):
+                        ev.append((pos, 'call:' + _src(node).replace(' ', '')))
+            ev.sort(key=lambda t: t[0])
+            sites.append((m + '.' + fn.name, [e for _, e in ev]))
+    return sites
+
+
 def generate_outconv(repo: Path, outdir: Path) -> dict:
     checks, alloc = extract_get_output(repo)
     sites = extract_out_sites(repo)
@@ -579,9 +698,21 @@ def generate_outconv(repo: Path, outdir: Path) -> dict:
          'def outSites : List (String × String × List String × List String) := [']
     s += ['  (' + ', '.join([q(n), q(p), '[' + ', '.join(q(x) for x in f) + ']', '[' + ', '.join(q(x) for x in h) + ']']) + '),' for n, p, f, h in sites]
     s[-1] = s[-1][:-1]
+    s += [']', '']
+    # (Round 4) the same functions as ordered event sequences: aliasing guards, stores, native calls
+    events = extract_out_events(repo)
+    s += ['/-- (Round 4) per function with an out/output parameter, IN SOURCE ORDER: `_get_output` calls, aliasing guards',
+          '    (`unalias:n|x~y` = `if np.may_share_memory(x, y): n = n.copy()`), whole-buffer stores, calls of out-taking functions of the',
+          '    same module, native kernel calls, returned names',
+          '    — each event as (kind, text) -/',
+          'def outEvents : List (String × List (String × String)) := [']
+    s += ['  (' + q(n) + ', [' + ', '.join('(' + q(x.split(':', 1)[0] if not x.startswith('get_output') else 'get_output') + ', ' +
+                                            q(x.split(':', 1)[1] if not x.startswith('get_output') else x[len('get_output'):]) + ')'
+                                            for x in ev) + ']),' for n, ev in events]
+    s[-1] = s[-1][:-1]
     s += [']', '', 'end Mahotas.Generated', '']
     changed = _write_if_changed(outdir / 'OutConv.lean', '\n'.join(s))
-    return dict(outconv_changed=changed, out_sites=len(sites), get_output_checks=len(checks))
+    return dict(outconv_changed=changed, out_sites=len(sites), get_output_checks=len(checks), out_events=sum(len(e) for _, e in events))
 
 
 # ---------------------------------------------------------------------------------------------
